@@ -194,6 +194,7 @@ class CaptureDeltaTs(DeltaKernel):
 
 
 class ApplyDeltaAtomic(DeltaKernel):
+    property_ids = ("C20", "C08")
     name = "ts_delta.cpp:apply_delta_atomic"
     fn_name = "apply_delta_atomic"
     filter = "apply_delta_atomic"
@@ -226,7 +227,8 @@ class ApplyDeltaAtomic(DeltaKernel):
     def post(self, I, ret):
         ctx = I.ctx
         g = self.g
-        ctx.oblige("ensures.value':=delta,once,at-the-cycle-time[C20 applying the captured delta reproduces the tick]",
+        ctx.oblige("ensures.value':=delta,once,at-the-cycle-time[C20 applying the captured delta reproduces the tick; C08 the feedback "
+                   "source delivers the stored delta]",
                    z3.And(ctx.store[(g.oid, "copies")] == 1, ctx.store[(g.oid, "copied")] == self.d,
                           ctx.store[(g.oid, "mut_t")] == self.T), kind="post-normal")
 
@@ -355,6 +357,7 @@ class SetInput(Obj):
 
 
 class ApplyDeltaTss(DeltaKernel):
+    property_ids = ("C20", "C08")
     name = "ts_delta.cpp:apply_delta_tss"
     fn_name = "apply_delta_tss"
     filter = "apply_delta_tss"
@@ -424,9 +427,10 @@ class ApplyDeltaTss(DeltaKernel):
         in_a = lambda e: z3.Exists([qk], z3.And(qk >= 0, qk < self.na, self.ea[qk] == e))
         in_r = lambda e: z3.Exists([qk], z3.And(qk >= 0, qk < self.nr, self.er[qk] == e))
         ctx.oblige("ensures.live'=(live-minus-removed)-union-added[C20 applying a captured delta to the pre-tick state yields "
-                   "the post-tick state]",
+                   "the post-tick state; C08 a set-shaped feedback delivers the stored delta]",
                    z3.ForAll([qe], self.live(ctx)[qe] == z3.Or(z3.And(self.live0[qe], z3.Not(in_r(qe))), in_a(qe))), kind="post-normal")
-        ctx.oblige("ensures.touch-last,once,at-the-cycle-time[C20 an empty tick still ticks]",
+        ctx.oblige("ensures.touch-last,once,at-the-cycle-time[C20 an empty tick still ticks; C08 an empty initial set is delivered at "
+                   "the start time]",
                    z3.And(ctx.store[(self.g.oid, "touches")] == 1, ctx.store[(self.g.oid, "ops_after_touch")] == 0,
                           ctx.store[(self.g.oid, "mut_t")] == self.T), kind="post-normal")
 
